@@ -1525,7 +1525,7 @@ func c10Judge(rd *c10Round, agg *c10Agg) {
 
 func runC10(e *Env) {
 	r := vk.NewRng(e.Seed ^ vk.HashStr("c10"+e.Tier))
-	e.R.Rule = "one case = a round against the real thruserv (rate limits off): 2-4 sessions, 8-24 concurrent WebSocket connections, stable phases (fixed membership, <=100 in flight per recipient, markers) alternating with churn phases (join, leave, reconnect, duplicate peer id, duplicate host) while every connection sends addressed (same session / self / unknown id / id of another session), broadcast, spoofed from, spoofed session_id, malformed, incomplete and binary frames; an envelope counts when it was delivered and checked against the author's send log; distinct by (operation kind, addressee relation, from class, session_id class, phase kind), plus peer_not_found reports by (addressee relation, phase kind); some rounds create their sessions through forced join-code collisions (admission judged per connection: distinct by collision kind and how the connection joined); control-frame rounds (members send ping / pong frames, stay idle for real seconds, then exchange messages: distinct by the control frames the recipient had sent and the idle class)"
+	e.R.Rule = "one case = a round against the real thruserv (rate limits off): 2-4 sessions, 8-24 concurrent WebSocket connections, stable phases (fixed membership, <=100 in flight per recipient, markers) alternating with churn phases (join, leave, reconnect, duplicate peer id, duplicate host) while every connection sends addressed (same session / self / unknown id / id of another session), broadcast, spoofed from, spoofed session_id, malformed, incomplete and binary frames; an envelope counts when it was delivered and checked against the author's send log; distinct by (operation kind, addressee relation, from class, session_id class, phase kind), plus peer_not_found reports by (addressee relation, phase kind); some rounds create their sessions through forced join-code collisions (admission judged per connection: distinct by collision kind and how the connection joined); control-frame rounds (members send ping / pong frames, stay idle for real seconds, then exchange messages: distinct by the control frames the recipient had sent and the idle class); allowance rounds on servers with the per-connection message budget switched on (defaults 50/s burst 100, 1/s burst 40, 2/s burst 8): every connection writes exactly `burst` text frames in its life (inside its allowance by count), distinct by (limits, how the connection's peer id relates to other connections of the server: live in other sessions / fresh / reconnected in the same session / id of a closed connection of another session, operation kind, from class)"
 	rounds := e.Pick(18, 48)
 	cfgs := make([]c10RoundCfg, rounds)
 	for i := range cfgs {
@@ -1553,8 +1553,12 @@ func runC10(e *Env) {
 	// control-frame rounds (ping / pong from clients, then an idle period, then traffic) run next to
 	// the ordinary rounds: their idle periods are real seconds
 	ctlDone := c10StartCtlRounds(e, r.Fork(), rounds, agg)
+	// allowance rounds (c10_allow.go): servers with the per-connection message budget switched on,
+	// every connection stays inside its allowance by count
+	allowDone := c10StartAllowRounds(e)
 	vk.ParallelDo(rounds, e.Pick(4, 6), func(i int) { c10RunRound(e, cfgs[i], agg) })
 	ctlDone()
+	allowDone()
 
 	sentTotal := 0
 	for _, v := range agg.sends {
@@ -1596,4 +1600,5 @@ func runC10(e *Env) {
 	e.R.Require(agg.events["duplicate"] >= 3, "fewer than 3 duplicate-peer-id reconnects happened")
 	e.R.Require(agg.stableOK >= agg.rounds, "fewer settled stable phases than rounds")
 	c10CtlRequire(e)
+	c10AllowRequire(e)
 }
